@@ -1,3 +1,4 @@
+from contextvars import ContextVar
 from dataclasses import dataclass, field
 
 from smartquery.scoped_dict import ScopedDict
@@ -9,3 +10,8 @@ class VMState:
     ops_evaluated: int = 0
 
     max_ops_evaluated: int = 100
+
+
+# the state of the eval() call in progress: a lambda that outlives the call which created it
+# (stored in a names mapping shared between calls) must be charged to the call that runs it
+current_state: ContextVar = ContextVar('smartquery_current_state', default=None)
